@@ -544,7 +544,9 @@ pub fn leg(run: &mut Run) {
     run.max_idx = MAX_IDX;
     let thorough = run.thorough();
     run.seq("TABLE INDICES", |ctx| table_indices(ctx));
-    let sel = Sel { m3: true, ep: Some(false), ep_spread_only: true, castle: Some(false), promo: Some(false), reach: Some(3), occ: true, ..Default::default() };
+    // (the OCC family runs in the checked configuration only: the table lookups it exercises are
+    // swept over their whole index domain by TABLE INDICES in both configurations)
+    let sel = Sel { m3: true, ep: Some(false), ep_spread_only: true, castle: Some(false), promo: Some(false), reach: Some(3), occ: thorough, ..Default::default() };
     run_universes(run, &sel, DISAGREE, &check_pos);
     run_universes(run, &Sel { dense: true, ..Default::default() }, DISAGREE, &check_pos_slim_short);
     maxmob(run, thorough);
